@@ -355,8 +355,18 @@ func TestCheck(t *testing.T) {
 						panic(err)
 					}
 					pi = &model.ProviderInfo{}
-					if err := json.Unmarshal(b, pi); err != nil {
-						panic(err)
+					var derr error
+					if pn, m := vp.Guard(func() { derr = json.Unmarshal(b, pi) }); pn {
+						// the library's own decoder of a record: a panic there is
+						// what the property excludes, not a harness failure
+						r.Violation("decode-of-a-record:panic", "rec|"+rkey, fmt.Sprintf("decoding record %s from JSON panicked: %s", rkey, firstLine(m)), nil)
+						continue
+					}
+					if derr != nil {
+						if !rc.mismatched() {
+							r.Violation("decode-of-a-record:error", "rec|"+rkey, fmt.Sprintf("decoding record %s from the JSON the library wrote for it: %v", rkey, derr), nil)
+						}
+						continue
 					}
 				}
 				src := &fakeSource{infos: []*model.ProviderInfo{pi}}
